@@ -1,4 +1,5 @@
 import Proofs.AdjointAll
+import Proofs.PointwiseCalc
 /-!
 # C01 — Backward of every tensor op yields the exact vector-Jacobian product
 
@@ -138,6 +139,34 @@ theorem mean_vjp {K : Type} [Field K] (a y : NDArray K) (ax : Axes) (keep : Bool
     (h : meanForward a ax keep = some y) :
     IsAdjoint (R := K) a.shape y.shape (fun v => meanForward v ax keep) (fun g => meanBackward g a.shape ax keep) :=
   mean_adj a y ax keep ha h
+
+/-! ### pointwise transcendental ops, over ℝ
+
+`PointwiseVJP fwd bwd φ φ' dom`: `fwd` applies `φ` element-wise, `HasDerivAt φ (φ' x) x` on `dom`, and
+`bwd g a` returns (an array of the operand's shape holding) `g[i] · φ'(a[i])` — the product of the
+upstream gradient with the diagonal Jacobian. -/
+section Calc
+open Proofs.Calc
+
+theorem exp_vjp : PointwiseVJP expForward (fun g a => expBackward g (expForward a)) Real.exp Real.exp (fun _ => True) :=
+  Proofs.Calc.exp_vjp
+
+/-- `log` as the code computes it: `log(x + 1e-12)` with derivative `1/(x + 1e-12)` -/
+theorem log_vjp : PointwiseVJP logForward logBackward (fun x => Real.log (x + (epsilon : ℝ))) (fun x => 1 / (x + (epsilon : ℝ)))
+    (fun x => x + (epsilon : ℝ) ≠ 0) := Proofs.Calc.log_vjp
+
+theorem sqrt_vjp : PointwiseVJP sqrtForward (fun g a => sqrtBackward g (sqrtForward a)) Real.sqrt (fun x => 1 / (2 * Real.sqrt x))
+    (fun x => 0 < x) := Proofs.Calc.sqrt_vjp
+
+/-- `x ** n`, integer and fractional exponents, on `x ≠ 0 ∨ 1 ≤ n` -/
+theorem pow_vjp (n : ℝ) : PointwiseVJP (fun a => powForward a n) (fun g a => powBackward g a n) (fun x => x ^ n)
+    (fun x => n * x ^ (n - 1)) (fun x => x ≠ 0 ∨ 1 ≤ n) := Proofs.Calc.pow_vjp n
+
+/-- `n ** x` for a base `n > 0` -/
+theorem rpow_vjp (n : ℝ) (hn : 0 < n) : PointwiseVJP (fun a => rpowForward a n) (fun g a => rpowBackward g (rpowForward a n) n)
+    (fun x => n ^ x) (fun x => n ^ x * Real.log n) (fun _ => True) := Proofs.Calc.rpow_vjp n hn
+
+end Calc
 
 /-! ### Non-vacuity: a concrete broadcast (2×1×3 ⊕ 3), a movedim 0→2 on 2×3×4, a slice `[::-2, …, None, [0,0,1]]` are accepted -/
 example : (addForward (α := Int) (ofFn [2, 1, 3] (fun i => (i.getD 0 0 : Int) + i.getD 2 0)) (ofFn [3] (fun i => (i.getD 0 0 : Int)))).map (·.shape)
